@@ -412,6 +412,12 @@ def run(tier, seed):
                 name="real-two-maps-on-one-dmm-id", **LIM),
          [("add_dmm", ["C", 52, d], ch, pr) for d in (-9.0, -10.0, -11.0, -13.0, -13.4, -15.0, -16.0) for ch in ("dmm_0", "dmm_0_1")
           for pr in ("no-delay",)] + [("add", A.C52, "g"), ("add_dmm", ["R", 60, -13.0, 0.0], "dmm_0_1", "min-delay"), ("delay", 16, "dmm_0_1")], 2),
+        # the SLM mask's automatic DMM pulse copies its duration from the first Global pulse: the DMM has its OWN clock / minimum /
+        # maximum duration (1 ns clock on the Global channel, 4 / 16 / 100 on the DMM)
+        (corner("unit", prefix=[("slm", ["q0"], "dmm_0")] + A.GL, over={"dmm": dict(clock=4, min_dur=16, max_dur=100)},
+                name="unit-slm-mask-on-a-dmm-with-its-own-clock", **{k: v for k, v in LIM.items() if k not in ("max_dur", "max_seq")}),
+         [("add", ["c", d, 1.0, 0.0, 0.0], "g") for d in (50, 10, 200, 52, 100, 101, 15, 16)] + [("delay", 16, "g"), ("add", A.C52, "l"),
+                                                                                               ("add_dmm", ["C", 52, -1.0], "dmm_0")], 2),
     ]
     cov = seqx.run_plan(res, plan, MONITORS)
     nolim = {k: v for k, v in LIM.items() if k != "max_seq"}
